@@ -5,7 +5,8 @@ import sys
 import time
 
 VERIF = os.path.dirname(os.path.dirname(os.path.dirname(os.path.abspath(__file__))))
-EVIDENCE = os.path.join(VERIF, 'evidence')
+# (seed / benign regression runs against patched exports set VERIF_EVIDENCE_DIR so that they do not overwrite the evidence of /repo)
+EVIDENCE = os.environ.get('VERIF_EVIDENCE_DIR') or os.path.join(VERIF, 'evidence')
 REPLAYS = os.path.join(EVIDENCE, 'replays')
 KNOWN = os.path.join(VERIF, 'known_findings.json')
 
